@@ -7,7 +7,7 @@
    slist   := m sched_1..sched_m *)
 From Coq Require Import ZArith QArith Qcanon List Bool Ascii.
 From QV.Exec Require Import Base.
-From QV.Model Require Import C20_Schedule.
+From QV.Model Require Import C20_Schedule C20_PreFix.
 Import ListNotations.
 Local Open Scope Z_scope.
 
@@ -66,16 +66,22 @@ Definition reason_code (r : order_reason) : Z :=
 Definition kind_code (k : kind) : Z := match k with KState => 0 | KPovm => 1 | KGate => 2 | KMprocess => 3 end.
 Definition kind_of_code (z : Z) : kind := if z =? 0 then KState else if z =? 1 then KPovm else if z =? 2 then KGate else KMprocess.
 (* one packed integer per result:  class + 8*(detail + 8*(flag + 2*(i + 4096*j)))
-   class: 0 ok, 1 QuaraScheduleItemError, 2 QuaraScheduleOrderError, 3 UnboundLocalError escapes;
-   detail: exception caught (1 Type, 2 Value, 3 Index) resp. order rule (1..5) *)
+   class: 0 ok, 1 QuaraScheduleItemError, 2 QuaraScheduleOrderError, 3 UnboundLocalError escapes (only the model of the
+   code BEFORE fix c20-noniterable-schedule, ops c20.validate0, produces it);
+   detail: exception caught (1 Type, 2 Value, 3 Index; 4 = the schedule itself is not iterable) resp. order rule (1..5) *)
 Definition pack (cls detail : Z) (flag : bool) (i j : nat) : Z :=
   cls + 8 * (detail + 8 * ((if flag then 1 else 0) + 2 * (Z.of_nat i + 4096 * Z.of_nat j))).
 Definition pack_vres (r : vres) (flag : bool) : Z :=
   match r with
   | VOk => pack 0 0 flag 0 0
   | VItemError i j e => pack 1 (exc_code e) flag i j
+  | VNonIter i => pack 1 4 flag i 0
   | VOrderError i r => pack 2 (reason_code r) flag i 0
-  | VUnbound i => pack 3 0 flag i 0
+  end.
+Definition pack_vres0 (r : vres0) : Z :=
+  match r with
+  | V0 r => pack_vres r false
+  | V0Unbound i => pack 3 0 false i 0
   end.
 Definition out_vres (r : vres) : list Qc := [qz (pack_vres r false)].
 
@@ -95,6 +101,15 @@ Definition op_validate : opfun := fun zs _ =>
   match dec_alpha l1 with None => Err (-2) | Some (alpha, l2) =>
   match dec_counted (dec_slist alpha) l2 with None => Err (-3) | Some (cases, _) =>
     Ok (flat_map (fun ss => out_vres (validate_schedules c ss)) cases)
+  end end end.
+
+(* c20.validate0 : same request; verdict of the model of the code BEFORE fix c20-noniterable-schedule (Model/C20_PreFix.v).
+   Only used to classify a disagreement between the implementation and the repaired model ("the defect is back"). *)
+Definition op_validate0 : opfun := fun zs _ =>
+  match dec_cfg zs with None => Err (-1) | Some (c, l1) =>
+  match dec_alpha l1 with None => Err (-2) | Some (alpha, l2) =>
+  match dec_counted (dec_slist alpha) l2 with None => Err (-3) | Some (cases, _) =>
+    Ok (map (fun ss => qz (pack_vres0 (validate_schedules0 c ss))) cases)
   end end end.
 
 (* c20.order : alpha-free, typed items:  N ; per case n (kind index)* -> reason code (0 = passes) *)
@@ -151,7 +166,7 @@ Definition op_calc : opfun := fun zs _ =>
   end end end end.
 
 (* c20.tomo : class ns np alpha N arg_1..arg_N ;  arg := 0 n c_1..c_n (a str) | 1 slist
-   -> per case one packed result, class: 0 ok, 1 item error, 2 order error, 3 unbound (from the Experiment),
+   -> per case one packed result, class: 0 ok, 1 item error, 2 order error (from the Experiment),
       4 guard ValueError, 5 guard IndexError, 6 str ValueError;  flag = 1 iff every schedule has the class's shape
       (for a str argument: of the expansion; 0 for an unsupported str) *)
 Definition class_of_code (z : Z) : tclass := if z =? 0 then Qst else if z =? 1 then Povmt else if z =? 2 then Qpt else Qmpt.
@@ -185,10 +200,28 @@ Definition op_tomo : opfun := fun zs _ =>
   | _ => Err (-1)
   end.
 
+(* c20.tomo0 : same request as c20.tomo for list arguments; verdict of the class guards BEFORE fix c20-qmpt-schedule-length
+   (no length test).  Only used to classify a disagreement. *)
+Definition op_tomo0 : opfun := fun zs _ =>
+  match zs with
+  | t :: ns :: np :: l1 =>
+    let t := class_of_code t in let ns := Z.to_nat ns in let np := Z.to_nat np in
+    match dec_alpha l1 with None => Err (-2) | Some (alpha, l2) =>
+    match dec_counted (dec_sarg alpha) l2 with None => Err (-3) | Some (args, _) =>
+      Ok (map (fun a => match a with
+                        | AList ss => qz (pack_tres (tomo_run0 t ns np ss) (shape_flag t ns np a))
+                        | AStr _ => qz (pack_tres (tomo_construct t ns np a) (shape_flag t ns np a))
+                        end) args)
+    end end
+  | _ => Err (-1)
+  end.
+
 Definition C20_ops : optable :=
   [ ("c20.items"%string, op_items);
     ("c20.validate"%string, op_validate);
+    ("c20.validate0"%string, op_validate0);
     ("c20.order"%string, op_order);
     ("c20.setters"%string, op_setters);
     ("c20.calc"%string, op_calc);
-    ("c20.tomo"%string, op_tomo) ].
+    ("c20.tomo"%string, op_tomo);
+    ("c20.tomo0"%string, op_tomo0) ].
